@@ -93,8 +93,8 @@ fn usable(p: &Pair) -> bool {
     if !doc_safe(&line) || KINDS.iter().find(|(a, _)| *a == p.alias).map(|(_, c)| *c) != Some(kind_of(&p.spec)) {
         return false;
     }
-    // one non-empty output line without CR (scrut normalises CR LF at the boundary) and without inner LF
-    if p.line.is_empty() || p.line.contains(&b'\r') || p.line[..p.line.len() - 1].contains(&b'\n') {
+    // one non-empty output line without inner LF (a line with a CR is printed under `keep_crlf: true`)
+    if p.line.is_empty() || p.line[..p.line.len() - 1].contains(&b'\n') {
         return false;
     }
     match &p.spec {
@@ -142,7 +142,9 @@ fn octal_printf(bytes: &[u8]) -> String {
 fn markdown_doc(case: &Case) -> String {
     let mut d = String::new();
     for (i, p) in case.pairs.iter().enumerate() {
-        d.push_str(&format!("# T{i}\n\n```scrut\n$ {}\n{}\n```\n\n", octal_printf(&p.line), expectation_line(p).unwrap_or_default()));
+        // CR LF output reaches the rules only when the test keeps it (Cram documents keep it by default)
+        let config = if p.line.contains(&b'\r') { " {keep_crlf: true}" } else { "" };
+        d.push_str(&format!("# T{i}\n\n```scrut{config}\n$ {}\n{}\n```\n\n", octal_printf(&p.line), expectation_line(p).unwrap_or_default()));
     }
     d
 }
@@ -157,6 +159,15 @@ fn cram_doc(case: &Case) -> String {
 
 /// structural class of a pair for signatures
 fn class_of(p: &Pair) -> String {
+    let c = spec_class(p);
+    if p.line.contains(&b'\r') {
+        format!("{c}/line:cr")
+    } else {
+        c
+    }
+}
+
+fn spec_class(p: &Pair) -> String {
     match &p.spec {
         Spec::Glob(t) => {
             let bs_wild = t.windows(2).any(|w| w[0] == GlobTok::Lit('\\') && matches!(w[1], GlobTok::One | GlobTok::Many | GlobTok::Lit('\\')));
@@ -168,9 +179,12 @@ fn class_of(p: &Pair) -> String {
                 "plain".into()
             }
         }
+        // (the in-process part names the structural cause of a regex mismatch; here only the features that
+        // change how the expression is wrapped)
         Spec::Regex(r) => {
             let mut tags = vec![];
             re_tags(r, true, &mut tags);
+            tags.retain(|t| matches!(t.as_str(), "alt-top" | "anchor-start" | "anchor-end"));
             tags.sort();
             if tags.is_empty() {
                 "plain".into()
@@ -269,6 +283,36 @@ fn text_line(rng: &mut Rng, member: Option<String>) -> (Vec<u8>, &'static str) {
     }
 }
 
+/// the line ends in CR (before the newline or as unterminated last line), CR CR, or has a CR in the middle
+fn with_cr(rng: &mut Rng, mut p: Pair) -> Pair {
+    let nl = p.line.last() == Some(&b'\n');
+    let mut content = strip_final_newline(&p.line).to_vec();
+    content.retain(|b| *b != b'\r');
+    let valid = std::str::from_utf8(&content).is_ok();
+    let (c, rel) = match rng.below(4) {
+        0 | 1 => {
+            content.push(b'\r');
+            (content, "cr-end")
+        }
+        2 => {
+            content.extend_from_slice(b"\r\r");
+            (content, "cr-cr")
+        }
+        _ => {
+            let cuts: Vec<usize> = (0..=content.len()).filter(|i| !valid || std::str::from_utf8(&content[..*i]).is_ok()).collect();
+            let i = *rng.pick(&cuts);
+            content.insert(i, b'\r');
+            (content, "cr-mid")
+        }
+    };
+    p.line = c;
+    if nl && !rng.chance(1, 3) {
+        p.line.push(b'\n');
+    }
+    p.rel = format!("{}+{rel}", p.rel);
+    p
+}
+
 fn gen_pair(rng: &mut Rng, which: usize) -> Pair {
     for _ in 0..20 {
         let p = match which {
@@ -307,6 +351,7 @@ fn gen_pair(rng: &mut Rng, which: usize) -> Pair {
                 }
             }
         };
+        let p = if which != 0 && rng.chance(2, 5) { with_cr(rng, p) } else { p };
         if usable(&p) && p.line.len() <= 120 {
             return p;
         }
@@ -383,7 +428,7 @@ impl Monitor for C04e {
     fn plan(&self, tier: Tier) -> Plan {
         let mut p = Plan::new(
             tier.pick(220, 4000),
-            "e2e: 8 (expectation, output line) pairs from the in-process generators (3 globs with a backslash directly before a wildcard, 1 general glob, regex, escaped, equal, no-eol; member / near-miss lines; output printed by an all-octal printf) as the tests of a Markdown and of a Cram document; `scrut test -r json` on [b.md], [b.md a.t], [a.t b.md]; every test's pass / fail is compared with the harness's own oracle (documented glob dialect for .md, Cram dialect for .t); non-trivial = the case has a pair whose documented verdict differs between the two dialects, or both passing and failing tests; distinct = hash of (kinds, classes, documented verdicts)",
+            "e2e: 8 (expectation, output line) pairs from the in-process generators (3 globs with a backslash directly before a wildcard, 1 general glob, regex, escaped, equal, no-eol; member / near-miss lines, two fifths of the lines with a CR at the end, CR CR or a CR in the middle, printed under `{keep_crlf: true}`; output printed by an all-octal printf) as the tests of a Markdown and of a Cram document; `scrut test -r json` on [b.md], [b.md a.t], [a.t b.md]; every test's pass / fail is compared with the harness's own oracle (documented glob dialect for .md, Cram dialect for .t); non-trivial = the case has a pair whose documented verdict differs between the two dialects, or both passing and failing tests; distinct = hash of (kinds, classes, documented verdicts)",
         );
         p.chunk = 2;
         p.case_timeout_s = 180;
@@ -400,11 +445,13 @@ impl Monitor for C04e {
             ("e2e:kind:no-eol".into(), n / 2),
             ("e2e:dialects-differ".into(), n / 2),
             ("e2e:verdict:pass".into(), n),
+            ("e2e:lines:carriage-return".into(), n),
+            ("e2e:lines:crlf".into(), n / 2),
             ("e2e:verdict:fail".into(), n),
         ];
         p.assumptions = vec![
             "one expectation and one output line per test, exit code 0: the test passes iff the expectation matches the line".into(),
-            "expectation lines are restricted to text that both document formats take verbatim (no leading blank, `$`, `>`, `#`, backtick; no control characters except TAB); output lines carry no CR".into(),
+            "expectation lines are restricted to text that both document formats take verbatim (no leading blank, `$`, `>`, `#`, backtick; no control characters except TAB)".into(),
         ];
         p
     }
@@ -460,6 +507,12 @@ impl Monitor for C04e {
                 }
                 if any_pass {
                     c = c.bucket("e2e:verdict:pass");
+                }
+                if case.pairs.iter().any(|p| p.line.contains(&b'\r')) {
+                    c = c.bucket("e2e:lines:carriage-return");
+                }
+                if case.pairs.iter().any(|p| p.line.ends_with(b"\r\n")) {
+                    c = c.bucket("e2e:lines:crlf");
                 }
                 if any_fail {
                     c = c.bucket("e2e:verdict:fail").bucket("near-miss");
